@@ -7,7 +7,7 @@ target('c27_control', 'engines/ll/c27_control.cpp',
        extra_src=LL_SRC, cxxflags=['-DC27_LLBASE_SHA=0x' + _c27_base],
        # avoid=F-21c: while an instant is pending the central only sends empty PDUs (the deferred control PDU is
        # overwritten by later receptions on a tree without repair sketch 25); remove once F-21c is fixed in /repo
-       opts={'avoid': 'F-21c'})
+       opts={'avoid': 'F-21c,F-27a,F-27b,F-27c,F-28b'})
 prop('C27', ['c27_control'], 'll',
      rule='rapidcheck generates a link layer configuration (plain / security + desired parameters / asynchronous parameter '
           'request + signalling channel), connection parameters and a history of LL control PDUs (17 shapes: every request in '
